@@ -1,12 +1,16 @@
 #!/venv/bin/python
 """Re-evaluate every seeded defect under /verif/seeded against the current /repo working tree and all checks;
-update meta.json (detected_by, reports) and MATRIX.json.  usage: reseed.py [ID ...]"""
+update meta.json (detected_by, reports) and MATRIX.json.  usage: reseed.py [--fast] [ID ...]
+--fast: per seed, run only the own property's check and the checks that reported it before (detected_by /
+analysis_error_in of the stored meta.json); what other checks newly report is then not recorded."""
 import json, os, sys, shutil
 from concurrent.futures import ThreadPoolExecutor
 sys.path.insert(0, '/verif')
 from darrlint import selftest
 SD = '/verif/seeded'
-ids = sys.argv[1:] or sorted(d for d in os.listdir(SD) if os.path.isdir(os.path.join(SD, d)))
+FAST = '--fast' in sys.argv
+args = [a for a in sys.argv[1:] if a != '--fast']
+ids = args or sorted(d for d in os.listdir(SD) if os.path.isdir(os.path.join(SD, d)))
 pids = ['C%02d' % i for i in range(1, 21)]
 
 def work(name):
@@ -16,7 +20,14 @@ def work(name):
         if not selftest.apply_patch(sc, os.path.join(d, 'patch.diff')):
             return name, None
         det = {}
-        for p in pids:
+        todo = pids
+        if FAST:
+            try:
+                m0 = json.load(open(os.path.join(d, 'meta.json')))
+                todo = sorted({m0['property']} | set(m0.get('detected_by', [])) | set(m0.get('analysis_error_in', [])))
+            except Exception:
+                todo = pids
+        for p in todo:
             rc, out = selftest.run_check(p, sc)
             if rc == 1:
                 det[p] = [l.split(' — ')[1][:120] + ' — ' + l.split(' — ')[-1][:160] for l in out.splitlines() if 'VIOLATED' in l][:3]
@@ -26,7 +37,7 @@ def work(name):
     finally:
         shutil.rmtree(sc, ignore_errors=True)
 
-with ThreadPoolExecutor(max_workers=8) as ex:
+with ThreadPoolExecutor(max_workers=12) as ex:
     res = list(ex.map(work, ids))
 mp = os.path.join(SD, 'MATRIX.json')
 matrix = json.load(open(mp)) if os.path.exists(mp) else {}
